@@ -256,6 +256,7 @@ def gen_case(rng: random.Random, k: int) -> dict:
             "patching": P.rules_text(rules), "ordering": P.ordering_text(orules),
             "acls": [{"name": name, "text": A.acl_text(p)} for name, p in parts],
             "margins": [0 if name is None else rng.choice([0, 0, 0, 2, 4, 8]) for name, _ in parts],
+            "filter": rng.random() < 0.25,
             "acl_items": items, "n_gen": n_gen}
 
 
@@ -263,6 +264,7 @@ def gen_case(rng: random.Random, k: int) -> dict:
 
 def payload(c: dict) -> dict:
     d = {k: c[k] for k in ("vendor", "patching", "ordering", "old", "new", "acls")}
+    d["filter"] = bool(c.get("filter"))
     pads = c.get("margins") or []
     d["acls"] = [dict(a, text=margin(a["text"], pads[j] if j < len(pads) and a.get("name") is not None else 0))
                  for j, a in enumerate(c["acls"])]
